@@ -106,7 +106,11 @@ fn mutate_tokens(toks: &[String], rng: &mut Rng, kind: &str) -> Vec<u8> {
         "unterminated-comment" => t.insert(i, "/* never closed".to_string()),
         "bad-escape" => t.insert(i, "print ( \"bad \\q escape\" ) ;".to_string()),
         "huge-literal" => t.insert(i, ["2147483648", "-2147483649", "99999999999999999999", "00000000000000000000000000001"][rng.below(4)].to_string()),
-        "stray-character" => t.insert(i, ["@", "$", "?", "\u{0}", "\u{feff}", "λ", "'", "`", "\\", "~", "#", "{", "}", "^", "!"][rng.below(15)].to_string()),
+        "stray-character" => t.insert(
+            i,
+            ["@", "$", "?", "\u{0}", "\u{feff}", "λ", "'", "`", "\\", "~", "#", "{", "}", "^", "!", "#!", "#! /usr/bin/fml run", "!!", "::", "&&", "||", "**", "<>", "..", "=>", "#include", "--x"][rng.below(27)]
+                .to_string(),
+        ),
         "truncate" => t.truncate(i),
         _ => {}
     }
@@ -342,7 +346,8 @@ pub fn c10(ctx: &Ctx, rep: &mut Report) {
     }
     // (2a) a fixed list of invalid sources: each must be rejected as a whole — nothing runs, nothing
     // reaches stdout, a diagnostic goes to stderr, the exit status is non-zero
-    let invalid: [&str; 48] = [
+    let invalid: [&str; 56] = [
+        "total + i #! + 1000", "#!/usr/bin/env fml\nprint(\"x\")", "a # b", "a ! b", "a && b", "a || b", "a ** b", "1 #! comment-like",
         "2147483648", "-2147483649", "99999999999999999999", "let big = 4294967298", "array(4294967298, 7)", "print(\"\\q\")", "print(\"open", "/* open", "1 /* a */ */",
         "a @ b", "a $ b", "a ? b", "let = 1", "1 +", "+ 1", "begin", "end", "begin 1", "1 end", "if a then", "if a 1", "then 1", "else 1", "f(1 2)", "f(1,,2)", "a.", ".a", "a..b",
         "x <-", "<- 1", "let 1 = 2", "let x 1", "function (a) -> a", "function f(1) -> 1", "function f(a) a", "array(1)", "array(1, 2, 3)", "print(1)", "print()",
@@ -363,6 +368,18 @@ pub fn c10(ctx: &Ctx, rep: &mut Report) {
             let replay = json!({"check":"C10","source_b64": super::super::b64(src.as_bytes()), "rejected": true});
             let run = if n % 3 == 0 { cli::fml_run_stdin(&src) } else { cli::fml_run_file(&f) };
             rep.bump("c10-invalid-source-list", "sources");
+            // the staged tool rejects it the same way: `fml parse` may not exit 0 or print an AST
+            if form == 0 {
+                let pr = cli::run(cli::Spec::new(&["parse", f.to_str().unwrap(), "--format", "json"]));
+                rep.evaluations += 1;
+                if crash_freedom(rep, &format!("invalid#{}", n), "fml parse", &pr, &replay) && (pr.success() || !pr.stdout.is_empty()) {
+                    rep.violation(
+                        "C10:invalid-source-not-rejected-by-parse",
+                        format!("invalid source {:?}: `fml parse` {}: {}", bad, if pr.success() { "exits 0" } else { "prints to stdout" }, pr.describe()),
+                        replay.clone(),
+                    );
+                }
+            }
             if crash_freedom(rep, &format!("invalid#{}", n), "fml run", &run, &replay) {
                 rep.nontrivial(hash_str(&src));
                 if run.success() || !run.stdout.is_empty() {
@@ -491,6 +508,17 @@ pub fn c10(ctx: &Ctx, rep: &mut Report) {
                 rep.bump("c10-mutation-result", "rejected");
                 let mut rp = replay_base.clone();
                 rp["rejected"] = json!(true);
+                if i % 3 == 0 {
+                    let pr = cli::run(cli::Spec::new(&["parse", f.to_str().unwrap(), "--format", "lisp"]));
+                    rep.evaluations += 1;
+                    if crash_freedom(rep, &format!("mutated#{}:{}", i, kind), "fml parse", &pr, &rp) && (pr.success() || !pr.stdout.is_empty()) {
+                        rep.violation(
+                            "C10:invalid-source-not-rejected-by-parse",
+                            format!("mutated#{} ({}): `fml parse` {} on a source that must be rejected: {}", i, kind, if pr.success() { "exits 0" } else { "prints to stdout" }, pr.describe()),
+                            rp.clone(),
+                        );
+                    }
+                }
                 if crash_freedom(rep, &format!("mutated#{}:{}", i, kind), "fml run", &run, &rp) {
                     rep.nontrivial(hash_bytes(&bytes));
                     if run.success() || !run.stdout.is_empty() {
@@ -742,6 +770,44 @@ pub fn c16(ctx: &Ctx, rep: &mut Report) {
             }
             v
         };
+        // the log may also go to something that is not a regular file: behaviour must not change
+        if i % 3 == 0 {
+            let target = ["/dev/null", "/dev/stderr", "fifo"][(i as usize / 3) % 3];
+            let fifo = dir.join(format!("{}.fifo", tag));
+            let (path, drain) = if target == "fifo" {
+                let _ = std::fs::remove_file(&fifo);
+                let made = std::process::Command::new("mkfifo").arg(&fifo).status().map(|s| s.success()).unwrap_or(false);
+                if made {
+                    let fp = fifo.clone();
+                    (fifo.to_str().unwrap_or("").to_string(), Some(std::thread::spawn(move || std::fs::read(&fp).map(|b| b.len()).unwrap_or(0))))
+                } else {
+                    (String::new(), None)
+                }
+            } else {
+                (target.to_string(), None)
+            };
+            if !path.is_empty() {
+                let r = cli::run(cli::Spec::new(&["run", f.to_str().unwrap(), "--heap-log", &path]));
+                if let Some(d) = drain {
+                    let _ = d.join();
+                }
+                let _ = std::fs::remove_file(&fifo);
+                rep.evaluations += 1;
+                if !r.timed_out && r.spawn_error.is_none() {
+                    rep.conclusive += 1;
+                    rep.count("cli_runs", 1);
+                    rep.bump("c16-log-location", target);
+                    // with /dev/stderr the log itself lands on stderr: only stdout and status are compared
+                    if r.stdout != base.stdout || r.code != base.code || r.signal != base.signal {
+                        rep.violation(
+                            &format!("C16:flags-change-behaviour:log-to-{}", target.trim_start_matches("/dev/")),
+                            format!("`run --heap-log {}` ends with {}; without flags: {}", target, r.describe(), base.describe()),
+                            replay.clone(),
+                        );
+                    }
+                }
+            }
+        }
         for (subdir, via_execute, hs) in settings {
             let (r, text) = match run_with_log(&dir, &src, &tag, subdir, via_execute, hs) {
                 Some(x) => x,
@@ -991,6 +1057,8 @@ pub fn c11(ctx: &Ctx, rep: &mut Report) {
                 ("relative path, other cwd", cli::run(cli::Spec::new(&["run", &rel]).cwd(&dir))),
                 ("stdin", cli::run(cli::Spec::new(&["run"]).stdin(src.as_bytes()))),
                 ("extra environment", cli::run(cli::Spec::new(&["run", f.to_str().unwrap()]).env("LANG", "tr_TR.UTF-8").env("TZ", "Pacific/Chatham").env("RUST_LOG", "trace").env("HOME", "/nonexistent").env("FOO", &"x".repeat(5000)))),
+                ("unusable temp and home directories", cli::run(cli::Spec::new(&["run", f.to_str().unwrap()]).env("TMPDIR", "/nonexistent/tmp").env("TMP", "/proc").env("TEMP", "/dev/null").env("HOME", "/dev/null").env("XDG_CACHE_HOME", "/nonexistent").env("PWD", "/nonexistent"))),
+                ("empty environment", cli::run(cli::Spec::new(&["-i", exe.to_str().unwrap(), "run", f.to_str().unwrap()]).exe(std::path::Path::new("/usr/bin/env")))),
                 ("setarch -R (no ASLR)", cli::run(cli::Spec::new(&["-R", exe.to_str().unwrap(), "run", f.to_str().unwrap()]).exe(std::path::Path::new("/usr/bin/setarch")))),
             ];
             for (how, r) in variants.iter() {
